@@ -78,6 +78,13 @@ fn header_sets() -> Vec<Vec<(String, Vec<u8>)>> {
         vec![("X-Rep".into(), b"one".to_vec()), ("Accept".into(), b"*/*".to_vec()), ("x-rep".into(), b" two ".to_vec()), ("X-REP".into(), b"three".to_vec())],
         vec![("X-Bin".into(), b"\xff\xfe caf\xe9".to_vec()), ("X-Empty".into(), b"".to_vec())],
         vec![("Set-Cookie".into(), b"a=1".to_vec()), ("Set-Cookie".into(), b"b=2".to_vec()), ("Content-Length".into(), b"3".to_vec()), ("X-Sp".into(), b"a   b".to_vec())],
+        // headers by which gateways and frameworks let a client ask for ANOTHER method, host, scheme or target than the
+        // request has -- all of them signed (see one_plain): what was submitted and verified is what comes back
+        vec![
+            ("X-HTTP-Method-Override".into(), b"DELETE".to_vec()), ("X-HTTP-Method".into(), b"PUT".to_vec()), ("X-Method-Override".into(), b"PATCH".to_vec()),
+            ("X-Forwarded-Host".into(), b"other.example.com".to_vec()), ("X-Forwarded-Proto".into(), b"https".to_vec()), ("X-Original-URL".into(), b"/admin".to_vec()),
+            ("X-Rewrite-URL".into(), b"/admin".to_vec()), ("X-Forwarded-Prefix".into(), b"/api".to_vec()),
+        ],
     ]
 }
 
@@ -235,6 +242,12 @@ fn one_plain(i: u64, hs: &[Vec<(String, Vec<u8>)>], st: &mut Stats) {
     plan.headers.extend(hset.iter().cloned());
     if !hset.is_empty() {
         plan.signed.push(hset[0].0.to_ascii_lowercase());
+        if hset[0].0 == "X-HTTP-Method-Override" {
+            // the override set is signed entirely
+            for h in hset.iter().skip(1) {
+                plan.signed.push(h.0.to_ascii_lowercase());
+            }
+        }
     }
     if body_kind == 0 && size != BODY_SIZES[0] {
         return; // the unit body is always empty
@@ -498,7 +511,7 @@ pub fn run(ctx: &Ctx) -> Report {
     Report {
         stats: st,
         rule: format!(
-            "accepted (reference-signed) requests: 11 methods (incl. extension methods) x 5 HTTP versions x 4 header multisets (repeated names, non-UTF-8 and empty values, mixed-case names), every second request also carrying a second Authorization and X-Amz-Security-Token header after the ones that count, half of them a session token x body types (), Vec<u8>, Bytes x {} body lengths (11 .. 65537 bytes, around 256) x 4 request-target / host forms (origin, origin with escapes / '+' / '&&', absolute-form, absolute-form without a Host header and ':authority' signed) and three targets without a path (authority-form host:port, absolute-form with no path, asterisk-form; these x methods x versions x body types x options only) x carrier x 4 principals x 4 session data (empty, one key, null / bool / integer values, and the 24 condition keys IAM itself defines) x {{default, S3, fold}}, the whole product once per logger configuration {:?} (no logger output, or a logger that formats every record at that maximum level{}); returned method, version, URI, header names/values/multiplicity/per-name order, body bytes and principal/session data compared with what was submitted / supplied; plus {} folded form requests (URL x body parameter lists x 6 paths — plain, escaped, and three with empty / dot segments, one beginning with '//' — x S3 x carrier, the plain path with the form in UTF-8, UTF-16LE and UTF-16BE; the returned path must have the normal form of the submitted one under the server's mode; each with an accurate Content-Length, Content-MD5, Content-Encoding and X-Amz-Content-Sha256, signed for every second one) per logger configuration: body empty and returned query multiset = URL ⊎ body. states = distinct (principal, session size) returned; Extensions marker recorded, not judged",
+            "accepted (reference-signed) requests: 11 methods (incl. extension methods) x 5 HTTP versions x 5 header multisets (repeated names, non-UTF-8 and empty values, mixed-case names, and eight signed method- / host- / target-override headers of gateways and frameworks), every second request also carrying a second Authorization and X-Amz-Security-Token header after the ones that count, half of them a session token x body types (), Vec<u8>, Bytes x {} body lengths (11 .. 65537 bytes, around 256) x 4 request-target / host forms (origin, origin with escapes / '+' / '&&', absolute-form, absolute-form without a Host header and ':authority' signed) and three targets without a path (authority-form host:port, absolute-form with no path, asterisk-form; these x methods x versions x body types x options only) x carrier x 4 principals x 4 session data (empty, one key, null / bool / integer values, and the 24 condition keys IAM itself defines) x {{default, S3, fold}}, the whole product once per logger configuration {:?} (no logger output, or a logger that formats every record at that maximum level{}); returned method, version, URI, header names/values/multiplicity/per-name order, body bytes and principal/session data compared with what was submitted / supplied; plus {} folded form requests (URL x body parameter lists x 6 paths — plain, escaped, and three with empty / dot segments, one beginning with '//' — x S3 x carrier, the plain path with the form in UTF-8, UTF-16LE and UTF-16BE; the returned path must have the normal form of the submitted one under the server's mode; each with an accurate Content-Length, Content-MD5, Content-Encoding and X-Amz-Content-Sha256, signed for every second one) per logger configuration: body empty and returned query multiset = URL ⊎ body. states = distinct (principal, session size) returned; Extensions marker recorded, not judged",
             BODY_SIZES.len(), levels, if thorough { "" } else { "; quick tier: each level covers a different third of the (method, version, header set) combinations, all other dimensions in full" }, n_f
         ),
         bounds: json!({"combinations_per_level": total, "levels": levels.len(), "folded": n_f}),
